@@ -220,3 +220,163 @@ func TestVerifReplay(t *testing.T) {
 		c.warnings = append(c.warnings, "C14 canary replay did not run: "+truncateOut(out, 300))
 	}
 }
+
+// c14Bounded: swaps2baseSwaps is 64-bit bit manipulation over a map (outside the engine's integer model), so it is
+// checked exhaustively up to a stated bound instead of being proved: for every n <= 8 and every pair of distinct qubit
+// positions the emitted list of basis-state swaps must be exactly the bit transposition (each state whose two bits
+// differ exchanged with its partner once, no other state touched). BOUNDED, not a proof; never counted as one.
+func c14Bounded(c *checkRun) {
+	src := `package bmqsim
+
+import (
+	"fmt"
+	"testing"
+)
+
+func TestVerifBounded(t *testing.T) {
+	for n := 1; n <= 8; n++ {
+		for s1 := 0; s1 < n; s1++ {
+			for s2 := 0; s2 < n; s2++ {
+				if s1 == s2 {
+					continue
+				}
+				dim := 1 << n
+				perm := make([]int, dim)
+				for i := range perm {
+					perm[i] = i
+				}
+				touched := make([]int, dim)
+				for _, bs := range swaps2baseSwaps(swap{s1, s2}, n) {
+					if bs.s1 < 0 || bs.s1 >= dim || bs.s2 < 0 || bs.s2 >= dim {
+						fmt.Printf("BOUNDED FAIL n=%d s1=%d s2=%d: swap (%d,%d) out of range\n", n, s1, s2, bs.s1, bs.s2)
+						return
+					}
+					perm[bs.s1], perm[bs.s2] = perm[bs.s2], perm[bs.s1]
+					touched[bs.s1]++
+					touched[bs.s2]++
+				}
+				m1, m2 := 1<<(n-1-s1), 1<<(n-1-s2)
+				for i := 0; i < dim; i++ {
+					want := i
+					if (i&m1 != 0) != (i&m2 != 0) {
+						want = i ^ m1 ^ m2
+					}
+					if perm[i] != want || touched[i] > 1 {
+						fmt.Printf("BOUNDED FAIL n=%d s1=%d s2=%d: basis state %d ends at %d (want %d), touched %d times\n", n, s1, s2, i, perm[i], want, touched[i])
+						return
+					}
+				}
+			}
+		}
+	}
+	fmt.Println("BOUNDED OK")
+}
+`
+	out, _ := runOverlayTest(c.repo, "pkg/bmqsim", "TestVerifBounded", src, 120*time.Second)
+	item := "bmqsim.swaps2baseSwaps: exhaustive for n <= 8 qubits and every ordered pair of distinct positions (1..8 x 56 pairs): the emitted swaps are exactly the bit transposition on basis states [BOUNDED, not a proof]"
+	switch {
+	case strings.Contains(out, "BOUNDED OK"):
+		c.bounded = append(c.bounded, item)
+	case strings.Contains(out, "BOUNDED FAIL"):
+		line := ""
+		for _, l := range strings.Split(out, "\n") {
+			if strings.HasPrefix(l, "BOUNDED FAIL") {
+				line = l
+			}
+		}
+		name := "bmqsim.swaps2baseSwaps#bounded[bit_transposition]"
+		c.canaries = append(c.canaries, name)
+		if c.canaryReplay == nil {
+			c.canaryReplay = map[string]*replayResult{}
+		}
+		c.canaryReplay[name] = &replayResult{Confirmed: true, Input: strings.TrimPrefix(line, "BOUNDED FAIL "), Observed: "swaps2baseSwaps on the real code (overlay test in pkg/bmqsim) does not emit the bit transposition"}
+	default:
+		c.warnings = append(c.warnings, "C14 bounded check did not run: "+truncateOut(out, 300))
+	}
+}
+
+// c04Canary replays a recorded failing history of property C04 on the real simulator: a producer that sends three
+// values with three r2owa instructions in a row to one consumer. Exactly-once, in-order delivery over histories is
+// not decided by the per-step contracts (it is a whole-history protocol property); this history was found while
+// confirming seeded changes and shows that the simulator's handshake loses a value: the second r2owa completes on the
+// stale acknowledge of the first transfer, before the consumer has dropped its received line. A replay of one
+// history on the real code - not a proof, and not counted among the obligations.
+func c04Canary(c *checkRun) {
+	src := `package bondmachine
+
+import (
+	"fmt"
+	"testing"
+
+	"github.com/BondMachineHQ/BondMachine/pkg/procbuilder"
+	"github.com/BondMachineHQ/BondMachine/pkg/simbox"
+)
+
+func verifReplayMachine(t *testing.T, prog string) *procbuilder.Machine {
+	mach := new(procbuilder.Machine)
+	mach.Arch.Modes = []string{"ha"}
+	mach.Arch.Rsize = 8
+	mach.Arch.R = 2
+	mach.Arch.N = 1
+	mach.Arch.M = 1
+	mach.Arch.O = 5
+	mach.Arch.L = 1
+	mach.Arch.Op = []procbuilder.Opcode{procbuilder.I2rw{}, procbuilder.Inc{}, procbuilder.Nop{}, procbuilder.R2owa{}}
+	p, err := mach.Arch.Assembler([]byte(prog))
+	if err != nil {
+		t.Fatal(err)
+	}
+	mach.Program = p
+	return mach
+}
+
+func TestVerifReplay(t *testing.T) {
+	prod := verifReplayMachine(t, "inc r0\ninc r1\ninc r1\ninc r2\ninc r2\ninc r2\nr2owa r0 o0\nr2owa r1 o0\nr2owa r2 o0\nnop\n")
+	cons := verifReplayMachine(t, "i2rw r0 i0\ni2rw r1 i0\ni2rw r2 i0\nnop\n")
+	bm := new(Bondmachine)
+	bm.Rsize = 8
+	bm.Domains = []*procbuilder.Machine{prod, cons}
+	bm.Add_processor(0)
+	bm.Add_processor(1)
+	bm.Add_bond([]string{"p1i0", "p0o0"})
+	bm.Init()
+	vm := new(VM)
+	vm.Bmach = bm
+	if err := vm.Init(); err != nil {
+		t.Fatal(err)
+	}
+	if err := vm.Launch_processors(&simbox.Simbox{}); err != nil {
+		t.Fatal(err)
+	}
+	for tick := 0; tick < 100; tick++ {
+		if _, err := vm.Step(nil); err != nil {
+			t.Fatal(err)
+		}
+	}
+	r := vm.Processors[1].Registers
+	ok := vm.Processors[1].Pc >= 3 && r[0] == uint8(1) && r[1] == uint8(2) && r[2] == uint8(3)
+	fmt.Printf("REPLAY delivered_in_order_exactly_once=%t received=%v,%v,%v consumer_pc=%d producer_pc=%d\n", ok, r[0], r[1], r[2], vm.Processors[1].Pc, vm.Processors[0].Pc)
+}
+`
+	out, _ := runOverlayTest(c.repo, "pkg/bondmachine", "TestVerifReplay", src, 120*time.Second)
+	switch {
+	case strings.Contains(out, "REPLAY delivered_in_order_exactly_once=false"):
+		name := "bondmachine.VM.Step#replay[back_to_back_r2owa]"
+		c.canaries = append(c.canaries, name)
+		line := ""
+		for _, l := range strings.Split(out, "\n") {
+			if strings.HasPrefix(l, "REPLAY") {
+				line = l
+			}
+		}
+		if c.canaryReplay == nil {
+			c.canaryReplay = map[string]*replayResult{}
+		}
+		c.canaryReplay[name] = &replayResult{Confirmed: true,
+			Input:    "two processors joined by one bond; producer: r2owa r0 o0 ; r2owa r1 o0 ; r2owa r2 o0 with r0=1, r1=2, r2=3; consumer: i2rw r0 i0 ; i2rw r1 i0 ; i2rw r2 i0; 100 ticks",
+			Observed: strings.TrimPrefix(line, "REPLAY ")}
+	case strings.Contains(out, "REPLAY delivered_in_order_exactly_once=true"):
+	default:
+		c.warnings = append(c.warnings, "C04 canary replay did not run: "+truncateOut(out, 300))
+	}
+}
